@@ -178,7 +178,16 @@ nsync_note nsync_note_new (nsync_note parent,
 			nsync_time parent_time;
 			nsync_mu_lock (&parent->note_mu);
 			parent_time = NOTIFIED_TIME (parent);
-			if (nsync_time_cmp (parent_time, abs_deadline) < 0) {
+			if (nsync_time_cmp (parent_time, nsync_time_zero) == 0) {
+				/* The parent is already notified, so *n is born
+				   notified; its expiry time is still the minimum of
+				   the deadlines of *n and its ancestors.  */
+				if (parent->expiry_time_valid &&
+				    nsync_time_cmp (parent->expiry_time, abs_deadline) < 0) {
+					set_expiry_time (n, parent->expiry_time);
+				}
+				ATM_STORE_REL (&n->notified, 1);
+			} else if (nsync_time_cmp (parent_time, abs_deadline) < 0) {
 				set_expiry_time (n, parent_time);
 			}
 			if (nsync_time_cmp (parent_time, nsync_time_zero) > 0) {
